@@ -75,6 +75,8 @@ NOTES = {
  "C14-w11m1": "caught after a Cyrillic and a long umlaut segment joined the non-ASCII segment pool (added after reading this change's description); before, 'Übrig' and '日本' were never the widest cell of their column.",
  "C01-w11m2": "missed at first: quantities had at most 4 decimals. A twentieth of C01's cases now append 5-14 further digits to every booked quantity (no assertions or closes on them) and report with --digits 20; then caught (Delta of 2e-10).",
  "C05-w11m1": "at first no verdict (exit 2): os.DirFS was not modelled; now it is (an fs.FS over simfs with fs.ValidPath like the real one). Then still missed: the root file was always in the top directory, so no include climbed above it. A fifth of the layouts now put the root file into books/; then caught by C05 and C04.",
+ "C12-w11m1": "C12 itself stays silent (its price graphs had no negative quote); caught by C03, whose journals draw negative quotes since the ninth wave (valuation fails although every price exists).",
+ "C19-w11m2": "caught by engine R as a hang of the race-instrumented binary (a copied, write-locked RWMutex). Engine S cannot see it: its lock table is keyed by the mutex's address, and a copy is a fresh, free lock there.",
 }
 DROPPED = [
  "C04 (wave 7, first change): Builder.Build skips the day sort while days 'arrive in ascending order'; the same idea as C05-m2 (caught by C04, C05, C19).",
